@@ -83,6 +83,8 @@ var c03ZooAdversarial = []string{
 	`{ add }`, `{ add(a: 1) }`, `{ add(b: 2) }`, `{ add(a: "s", b: true) }`, `{ add(a: 99999999999, b: 1) }`, `{ add(a: 1.5, b: 2) }`, `{ add(b: 2, a: 1) }`,
 	`{ flag }`, `{ flag(on: 1) }`, `{ flag(on: null) }`, `{ pick }`, `{ pick(i: -1) { id } }`, `{ pick(i: 2147483648) { id } }`, `{ pick(i: $x) { id } }`,
 	`{ label }`, `{ label(upper: true) }`, `{ label(prefix: null) }`, `{ items { label } }`, `{ items { label(upper: "x") } }`,
+	`{ box(in: {d: [1 null]}) }`, `{ box(in: {d: [1, "x"]}) }`, `{ box(in: {d: 3}) }`, `{ box(in: null) }`, `{ box }`, `{ box(in: {inner: {inner: {d: [null]}}}) }`, `{ box(in: {d: [[1]]}) }`,
+	`{ box(in: {name: 3}) }`, `{ box(in: {nope: 1}) }`, `{ box(in: []) }`, `{ box(in: "s") }`, `query($b: Box){ box(in: $b) }`, `query($b: [Int]){ box(in: {d: $b}) }`, `{ box(in: {d: [99999999999]}) }`,
 	`query($a:){ name }`, `query($a: Nope){ name }`, `query($a: Int = ){ name }`, `query($: Int){ name }`, `query($a: [Int){ name }`, `query($a: Int!!){ name }`,
 	`query($n: String){ hello(name: $n) }`, `query($n: Int){ add(a: $n, b: $n) }`, `query($n: Boolean){ flag(on: $n) }`, `query($n: Int){ pick(i: $n) { id } }`,
 	`{ thing }`, `{ thing { id } }`, `{ node }`, `{ name { x } }`, `{ items }`, `{ items { } }`, `{ }`, `{`, `}`, `{{{{`, `query`, `query Q`, `mutation { bump }`, `mutation { bump(by: 1e99) }`,
@@ -194,7 +196,7 @@ func c03Gen(seed int64, tier string, batch, i int) c03Input {
 			in.Cat = "zoo-adversarial-mutated"
 		}
 		in.Vars = map[string]interface{}{}
-		for _, k := range []string{"n", "a", "x", "v", "c"} {
+		for _, k := range []string{"n", "a", "x", "v", "c", "b"} {
 			if r.Intn(2) == 0 {
 				in.Vars[k] = c03RandJSON(r, 2)
 			}
